@@ -211,10 +211,16 @@ func init() {
 	})
 
 	Properties = append(Properties, &PropertySpec{
-		ID: "C03",
+		ID: "C03", UsesEvalModel: true,
 		Harnesses: []HarnessSpec{
 			{Name: "C03_default94", Expect: []string{"end", "default-modifier"}},
 			{Name: "C03_legal88", Expect: []string{"accepted", "rejected"}},
+			{Name: "C03_symbols", Expect: []string{"end", "denoted-instruction"}, Witnesses: 8,
+				Quick:    grid([]string{"entry", "style"}, []int{0, 1, 2, 3}, []int{0, 1}),
+				Thorough: grid([]string{"entry", "style"}, []int{0, 1, 2, 3}, []int{0, 1, 2, 3, 4, 5})},
+			{Name: "C03_text", Expect: []string{"end", "denoted-instruction"}, Witnesses: 8, TerminationClaim: true,
+				Quick:    grid([]string{"dialect"}, []int{0, 1}),
+				Thorough: grid([]string{"dialect"}, []int{0, 1})},
 		},
 	})
 	Properties = append(Properties, &PropertySpec{
@@ -270,6 +276,24 @@ func init() {
 			{Name: "C05_equ", Expect: []string{"end", "accepted", "rejected"}, TerminationClaim: true, Witnesses: 4,
 				Quick:    grid([]string{"deflen"}, []int{2}),
 				Thorough: grid([]string{"deflen"}, []int{3})},
+		},
+	})
+
+	Properties = append(Properties, &PropertySpec{
+		ID: "C08", UsesEvalModel: true,
+		Harnesses: []HarnessSpec{
+			{Name: "C08_family", Expect: []string{"end", "for-equals-unrolled"}, Witnesses: 8,
+				Quick:    grid([]string{"maxCount", "nested", "second"}, []int{2}, []int{0, 1}, []int{0, 1}),
+				Thorough: grid([]string{"maxCount", "nested", "second"}, []int{3}, []int{0, 1}, []int{0, 1})},
+			{Name: "C08_sequence", Expect: []string{"end"}, Witnesses: 1,
+				Quick:    grid([]string{"blocks"}, []int{1, 3, 12}),
+				Thorough: grid([]string{"blocks"}, []int{1, 3, 7, 12})},
+			{Name: "C08_sequence", Witnesses: 1,
+				Quick:    grid([]string{"blocks"}, []int{13}),
+				Thorough: grid([]string{"blocks"}, []int{13, 16, 40})},
+			{Name: "C08_sequence_probe", Role: "known:for-pass-limit-12", Witnesses: 1,
+				Quick:    []Params{{"blocks": 13, "probe": 1}},
+				Thorough: []Params{{"blocks": 13, "probe": 1}}},
 		},
 	})
 }
